@@ -10,7 +10,9 @@ import (
 	"os"
 	"os/exec"
 	"path/filepath"
+	"runtime/pprof"
 	"strings"
+	"time"
 )
 
 var commands = map[string]func(*Run){}
@@ -38,8 +40,32 @@ func main() {
 		return
 	}
 	r := newRun(os.Args[1], os.Args[2:])
+	go watchdog(r)
 	cmd(r)
 	r.finish()
+}
+
+// The code under test can spin or block for ever inside a call the harness makes directly (a container operation, a
+// codec call, an API call): when the stream makes no progress at all for a long time the child reports where every
+// goroutine is and exits, which the parent turns into a violation with the inputs recorded last.
+func watchdog(r *Run) {
+	limit := 240 * time.Second
+	if r.thorough() {
+		limit = 900 * time.Second
+	}
+	last, since := progress.Load(), time.Now()
+	for {
+		time.Sleep(5 * time.Second)
+		if p := progress.Load(); p != last {
+			last, since = p, time.Now()
+			continue
+		}
+		if time.Since(since) > limit {
+			fmt.Fprintf(os.Stderr, "no progress for %v: the code under test does not return (spinning or blocked)\n\n", limit)
+			pprof.Lookup("goroutine").WriteTo(os.Stderr, 1)
+			os.Exit(3)
+		}
+	}
 }
 
 func runIsolated() {
